@@ -6,7 +6,7 @@ import atexit, fcntl, hashlib, json, os, random, re, shutil, subprocess, sys, te
 VERIF = os.path.dirname(os.path.dirname(os.path.abspath(__file__)))
 REPO = os.environ.get("VERIF_REPO", "/repo")
 COQ = os.path.join(VERIF, "coq")
-CACHE = os.path.join(VERIF, ".cache")
+CACHE = os.environ.get("VERIF_CACHE_DIR") or os.path.join(VERIF, ".cache")
 GO_TOOLCHAIN = "/root/go/pkg/mod/golang.org/toolchain@v0.0.1-go1.26.2.linux-amd64"
 REAL_MODCACHE = "/root/go/pkg/mod"
 
